@@ -194,13 +194,14 @@ def main():
         fn = key.split("|", 1)[0]
         if fn not in F.bodies:
             continue
+        if fn not in analyzers:
+            analyzers[fn] = (g1_panic.Analyzer(F, fn), {s.key(): s for s in g1_panic.collect_sites(F, fn)})
+        A, ss = analyzers[fn]
+        s = ss.get(key)
+        if s is None:
+            print("WARNING: audited site %s no longer exists (dropped)" % key)
+            continue
         if "guard_patterns" in e:
-            if fn not in analyzers:
-                analyzers[fn] = (g1_panic.Analyzer(F, fn), {s.key(): s for s in g1_panic.collect_sites(F, fn)})
-            A, ss = analyzers[fn]
-            s = ss.get(key)
-            if s is None:
-                continue
             sigs = sorted({g1_panic.guard_sig(f) for f in A.facts_at(s.block)})
             need = []
             for gp in e["guard_patterns"]:
@@ -208,10 +209,11 @@ def main():
                 if not ms:
                     print("WARNING: guard pattern %r matches nothing at %s (guards: %s)" % (gp, key, sigs))
                 need += ms
-            out[key] = {"reason": e["reason"], "guards": sorted(set(need))}
-        else:
-            out[key] = e
-    json.dump({"_doc": "Audited panic-capable sites: each entry was written after reading the code; `guards` are the dominating guards the argument relies on (the check fails if one disappears). Keys carry no line numbers.",
+            e = {"reason": e["reason"], "guards": sorted(set(need))}
+        # operand signature: the audit was written for this computation of the index / operand (see g1_panic.expr_sig)
+        e = dict(e, ops=g1_panic.site_opsig(A, s))
+        out[key] = e
+    json.dump({"_doc": "Audited panic-capable sites: each entry was written after reading the code; `guards` are the dominating guards the argument relies on (the check fails if one disappears); `ops` is the canonical form of the operands the audit was written for (the check fails if the computation changes). Keys carry no line numbers.",
                "sites": dict(sorted(out.items()))}, open(path, "w"), indent=1)
     print("audited sites: %d (new/updated %d); unmatched violations: %d" % (len(out), n_new, len(unmatched)))
     for u in unmatched:
